@@ -9,6 +9,38 @@ import (
 	"golang.org/x/tools/go/packages"
 )
 
+// normExpr prints an expression with every identifier that denotes a local variable or
+// parameter replaced by ‹its type›, so that renaming locals does not change the fact.
+func normExpr(info *types.Info, pkg *types.Package, e ast.Expr) string {
+	type saved struct {
+		id   *ast.Ident
+		name string
+	}
+	var sv []saved
+	ast.Inspect(e, func(n ast.Node) bool {
+		id, ok := n.(*ast.Ident)
+		if !ok {
+			return true
+		}
+		obj := info.Uses[id]
+		if obj == nil {
+			obj = info.Defs[id]
+		}
+		v, ok := obj.(*types.Var)
+		if !ok || v.IsField() || v.Parent() == nil || v.Parent() == pkg.Scope() || v.Parent() == types.Universe {
+			return true
+		}
+		sv = append(sv, saved{id, id.Name})
+		id.Name = "‹" + types.TypeString(v.Type(), func(p *types.Package) string { return p.Name() }) + "›"
+		return true
+	})
+	out := src(e)
+	for _, s := range sv {
+		s.id.Name = s.name
+	}
+	return out
+}
+
 // genPanicSites: in the packages on the load / compile / resolve / list path, every
 // expression that can panic at run time by itself: index and slice expressions on slices,
 // arrays and strings (map indexing cannot panic), type assertions without comma-ok,
@@ -64,7 +96,8 @@ func genPanicSites(pkgs []*packages.Package) {
 					}
 					return true
 				})
-				add := func(kind, expr string) {
+				add := func(kind string, e ast.Expr) {
+					expr := normExpr(p.TypesInfo, p.Types, e)
 					k := "(" + q(fn) + ", " + q(kind) + ", " + q(expr) + ")"
 					if !seen[k] {
 						seen[k] = true
@@ -80,31 +113,31 @@ func genPanicSites(pkgs []*packages.Package) {
 						}
 						switch u := t.Underlying().(type) {
 						case *types.Slice, *types.Array:
-							add("index", src(x))
+							add("index", x)
 						case *types.Basic:
 							if u.Info()&types.IsString != 0 {
-								add("index", src(x))
+								add("index", x)
 							}
 						case *types.Pointer:
 							if _, ok := u.Elem().Underlying().(*types.Array); ok {
-								add("index", src(x))
+								add("index", x)
 							}
 						}
 					case *ast.SliceExpr:
-						add("slice", src(x))
+						add("slice", x)
 					case *ast.TypeAssertExpr:
 						if x.Type != nil && !okAssert[x] {
-							add("assert", src(x))
+							add("assert", x)
 						}
 					case *ast.CallExpr:
 						switch f := x.Fun.(type) {
 						case *ast.Ident:
 							if f.Name == "panic" {
-								add("panic", src(x))
+								add("panic", x)
 							}
 						case *ast.SelectorExpr:
 							if strings.HasPrefix(f.Sel.Name, "Must") {
-								add("must", src(x))
+								add("must", x)
 							}
 						}
 					}
